@@ -213,8 +213,19 @@ def table_predicate(n, spec, st, tab):
 
 
 # ----------------------------------------------------------------------------- feasibility predicates (returned factors)
+FEAS_OK = []   # (kind, parameter, array) of every array the predicate accepted in this run: re-decided inside Coq (Corr.C11.feasb)
+
+
 def feasible(kind, p, F):
-    """None if the factor satisfies the constraint, 'degenerate' for non-finite output, else a message"""
+    """None if the factor satisfies the constraint, 'degenerate' for non-finite output, else a message;
+    accepted arrays are collected in FEAS_OK"""
+    msg = _feasible(kind, p, F)
+    if msg is None and kind in HARD and len(FEAS_OK) < 20000:
+        FEAS_OK.append((kind, p, np.array(F, dtype=float, copy=True)))
+    return msg
+
+
+def _feasible(kind, p, F):
     F = np.asarray(F)
     if F.ndim != 2:
         return f"factor is not a matrix: shape {F.shape}"
@@ -921,6 +932,7 @@ def load_corpus():
 # ----------------------------------------------------------------------------- the check
 def run(chk):
     rng = random.Random(chk.seed)
+    del FEAS_OK[:]
     chk.build_proofs()
     C.reset_backends()
     tier = chk.tier
@@ -1015,6 +1027,20 @@ def run(chk):
                 cases.append(f"CProx {idlit(cid)} {cfg['n']}%nat {specs_lit(spec)} {cfg['order']}%nat {lit}")
             meta.append((cfg["kind"], cfg, lit))
 
+    # (e) every array the Python feasibility predicate accepted is decided again inside Coq on its exact rational value
+    n_feas_coq = 0
+    feas_sel = FEAS_OK if (tier != "quick" or len(FEAS_OK) <= 700) else FEAS_OK[::(len(FEAS_OK) + 699) // 700]
+    for (k, p_, F) in feas_sel:
+        try:
+            lit = (f"CFeas {idlit(len(cases))} {KCOQ[KINDS.index(k)]} {pv(p_)} [" +
+                   "; ".join("[" + "; ".join(C.q(float(x)) for x in row) + "]" for row in F) + "]")
+        except (TypeError, ValueError, OverflowError):
+            continue
+        cases.append(lit)
+        meta.append(("feas", k, p_, F))
+        n_feas_coq += 1
+    chk.cov["feasibility_decided_in_coq"] = n_feas_coq
+
     failing, n_eval, broken = C.run_case_shards("C11", HEADER, "case", cases, shard=400)
     chk.checker_cmds.append("coqc (vm_compute) on generated build/cases/C11/*.v: Corr.C11.failing")
     chk.cov["traces_validated_against_impl"] = n_trace
@@ -1045,6 +1071,9 @@ def run(chk):
         if m[0] == "table":
             chk.disagreement("corr:C11 table (Model/Constraints.v zvalidate_table vs tensorly.tenalg.proximal.validate_constraints)",
                              {"n": m[1], "spec": spec_to_json(m[2])})
+        elif m[0] == "feas":
+            chk.disagreement("corr:C11 feasibility (Corr.C11.feasb on the exact rational value vs the Python predicate, which accepted the array)",
+                             {"kind": m[1], "parameter": m[2], "array": m[3]})
         elif m[0] == "admm":
             chk.disagreement("corr:C11 admm (Model/Constraints.v admm skeleton vs provenance of the primal variable returned by tensorly.solvers.admm.admm)",
                              {"cfg": m[1], "observed_provenance": m[2]})
